@@ -119,6 +119,8 @@ enum Step {
     Plan(Path, usize, Mode, Vec<Op>),
     Entry(Vec<Op>),
     Exit(Vec<Op>),
+    /// a function-exit probe on helper function h (its wrapper type `() -> results(helper)` is added inside encode, like F's)
+    ExitHelper(u32, Vec<Op>),
     AddType(Sig, TyUse),
     AddLocalF(Sig, u32, Vec<Ref>),
     AddLocalG(u32),
@@ -149,6 +151,7 @@ impl Scn {
                 Step::AddType(sig, _) => v.push(sig.clone()),
                 Step::AddLocalF(sig, ..) => v.push(sig.clone()),
                 Step::Exit(ops) if !ops.is_empty() => v.push((vec![], self.base.types[self.base.f_ty as usize].1.clone())),
+                Step::ExitHelper(h, ops) if !ops.is_empty() => v.push((vec![], self.base.types[self.base.funcs[*h as usize].0 as usize].1.clone())),
                 _ => {}
             }
         }
@@ -360,6 +363,10 @@ fn gen_scenario(seed: u64, idx: u64) -> Scn {
         }
         if r.chance(1, 3) { steps.push(Step::Entry(gen_probe(r, &mut pid))); }
         if r.chance(1, 2) && !steps.iter().any(|s| matches!(s, Step::Exit(_))) { steps.push(Step::Exit(gen_probe(r, &mut pid))); }
+        // exit probes on the helper functions too: several functions whose wrapper types are added during one encode
+        if !base.funcs.is_empty() && r.chance(1, 2) {
+            for h in 0..base.funcs.len() as u32 { if r.chance(2, 3) { steps.push(Step::ExitHelper(h, gen_probe(r, &mut pid))); } }
+        }
     }
     Scn { kind, second, base, steps, f_id }
 }
@@ -559,6 +566,16 @@ fn apply(module: &mut Module<'static>, sc: &Scn) {
                 if matches!(st, Step::Entry(_)) { it.func_entry(); } else { it.func_exit(); }
                 for op in ops { it.inject(op.wp()); }
             }
+            Step::ExitHelper(h, ops) => {
+                let hfid = fid + 1 + *h;
+                let mut it = ModuleIterator::new(module, &vec![]);
+                let mut found = false;
+                loop {
+                    if let Location::Module { func_idx, .. } = it.curr_loc().0 { if *func_idx == hfid { found = true; break; } }
+                    if it.next().is_none() { break; }
+                }
+                if found { it.func_exit(); for op in ops { it.inject(op.wp()); } }
+            }
             Step::AddType(sig, usage) => {
                 let id = module.types.add_func_type(&dts(&sig.0), &dts(&sig.1), None);
                 rets.push(id);
@@ -675,6 +692,7 @@ fn show_steps(sc: &Scn) -> String {
         Step::Plan(p, i, m, o) => format!("plan[{:?}] @{} {:?} [{}]", p, i, m, show_ops(o)),
         Step::Entry(o) => format!("fn_entry [{}]", show_ops(o)),
         Step::Exit(o) => format!("fn_exit [{}]", show_ops(o)),
+        Step::ExitHelper(h, o) => format!("fn_exit(helper {}) [{}]", h, show_ops(o)),
         Step::AddType(s, u) => format!("add_func_type {} use={:?}", show_sig(s), u),
         Step::AddLocalF(s, fp, refs) => format!("FunctionBuilder{} fp={} refs={}", show_sig(s), fp, refs.len()),
         Step::ImportToLocal(k, s, fp, refs) => format!("replace_import #{} {} fp={} refs={}", k, show_sig(s), fp, refs.len()),
@@ -779,7 +797,7 @@ fn main() {
         if both_modes { tags.push("before_and_after_entry_on_one_block".into()); }
         for s in &sc.steps {
             tags.push(format!("step={}", match s {
-                Step::Plan(_, _, m, _) => format!("plan_{:?}", m), Step::Entry(_) => "fn_entry".into(), Step::Exit(_) => "fn_exit".into(),
+                Step::Plan(_, _, m, _) => format!("plan_{:?}", m), Step::Entry(_) => "fn_entry".into(), Step::Exit(_) => "fn_exit".into(), Step::ExitHelper(..) => "fn_exit_helper".into(),
                 Step::AddType(_, u) => format!("add_func_type_{:?}", u), Step::AddLocalF(..) => "FunctionBuilder".into(), Step::AddLocalG(_) => "add_global".into(),
                 Step::AddLocalM(_) => "add_local_memory".into(), Step::AddImportF(TyRef::Base(_), _) => "add_import_func".into(), Step::AddImportF(TyRef::Ret(_), _) => "add_import_func_returned_type".into(),
                 Step::AddImportG(_) => "add_imported_global".into(), Step::AddImportM(_) => "add_import_memory".into(), Step::Delete(sp, _) => format!("delete_{:?}", sp),
